@@ -1,3 +1,352 @@
-namespace Placeholder
-theorem placeholder_C05 : True := trivial
-end Placeholder
+import Proofs.Spawn
+/-!
+# C05  Every redirection combination wires child streams to the requested objects
+
+* `c05_wiring`: the child-side `dup2`/`close` sequence, interpreted over an arbitrary descriptor
+  table, leaves 0, 1, 2 pointing at exactly the objects the child ends denoted at the fork — for
+  all 5×5×5 combinations at once (the combinations only determine which `End`s arise).
+* `c05_invalid_refused`: `Merge` for stdin, or for both outputs, is refused without forking.
+* `c05_parent_std_untouched`: the parent only ever closes / marks descriptors it obtained from
+  `pipe()` or was handed as files — never its own 0, 1, 2.
+-/
+namespace Spawn
+
+/-- a descriptor table: which open file description each number refers to -/
+def Tbl := Nat → Option Nat
+def tset (t : Tbl) (k : Nat) (v : Option Nat) : Tbl := fun x => if x = k then v else t x
+def tstep (t : Tbl) : SCall → Tbl
+  | .dup2 s d => tset t d (t s)
+  | .close f => tset t f none
+  | _ => t
+
+/-- one stream: `dup2` onto `i`, then the drop of the `Rc` -/
+theorem dupStep_spec (i f : Nat) (e : End) (later : List End) (t : Tbl) (he : e.fd? = some f) (hne : f ≠ i) :
+    ((dupStep i e later).foldl tstep t) i = t f ∧
+    (∀ x, x ≠ i → x ≠ f → ((dupStep i e later).foldl tstep t) x = t x) ∧
+    ((later.any (· == .own f) = true ∨ ∀ g, e ≠ .own g) → ((dupStep i e later).foldl tstep t) f = t f) := by
+  cases e with
+  | none => simp [End.fd?] at he
+  | own g =>
+    simp only [End.fd?, Option.some.injEq] at he; subst he
+    simp only [dupStep, hne, ne_eq, not_false_eq_true, if_true]
+    by_cases hl : later.any (· == .own g) = true
+    · simp only [hl, if_true, List.append_nil, List.foldl_cons, List.foldl_nil, tstep, tset]
+      refine ⟨by simp, fun x hx _ => by simp [hx], fun _ => by simp [hne]⟩
+    · simp only [hl, Bool.false_eq_true, if_false, List.cons_append, List.nil_append, List.foldl_cons, List.foldl_nil, tstep, tset]
+      refine ⟨by simp [Ne.symm hne], fun x hx hx' => by simp [hx, hx'], ?_⟩
+      rintro (h | h)
+      · first | exact absurd h hl | exact h.elim
+      · exact absurd rfl (h g)
+  | shared g =>
+    simp only [End.fd?, Option.some.injEq] at he; subst he
+    simp only [dupStep, hne, ne_eq, not_false_eq_true, if_true, List.foldl_cons, List.foldl_nil, tstep, tset]
+    exact ⟨by simp, fun x hx _ => by simp [hx], fun _ => by simp [hne]⟩
+  | std g =>
+    simp only [End.fd?, Option.some.injEq] at he; subst he
+    simp only [dupStep, hne, ne_eq, not_false_eq_true, if_true, List.foldl_cons, List.foldl_nil, tstep, tset]
+    exact ⟨by simp, fun x hx _ => by simp [hx], fun _ => by simp [hne]⟩
+
+theorem dupStep_none (i : Nat) (later : List End) (t : Tbl) : (dupStep i .none later).foldl tstep t = t := by
+  simp [dupStep]
+
+/-- what `setup_streams` guarantees about the three child ends (WF of DESIGN.md §6: the parent has
+    0, 1, 2 open, so pipe ends and caller files are ≥ 3; an inherited stream is used as a merge
+    source only when the other output is not redirected; one descriptor is not both an owned and a
+    shared object) -/
+structure WFEnds (eI eO eE : End) : Prop where
+  geI : ∀ f, eI.fd? = some f → 3 ≤ f
+  geO : ∀ f, eO.fd? = some f → 3 ≤ f ∨ (eO = .std 2 ∧ eE = .none)
+  geE : ∀ f, eE.fd? = some f → 3 ≤ f ∨ (eE = .std 1 ∧ eO = .none)
+  sepIO : ∀ f, eI = .own f → eO.fd? = some f → eO = .own f
+  sepIE : ∀ f, eI = .own f → eE.fd? = some f → eE = .own f
+  sepOE : ∀ f, eO = .own f → eE.fd? = some f → eE = .own f
+
+def dupAll (eI eO eE : End) : List SCall :=
+  dupStep 0 eI [eO, eE] ++ dupStep 1 eO [eE] ++ dupStep 2 eE []
+
+/-- the object a stream ends up with: the child end's object at the fork, or what the descriptor
+    already was (inherit) -/
+def want (t : Tbl) (i : Nat) (e : End) : Option Nat := match e.fd? with | some f => t f | none => t i
+
+/-- **C05 (wiring).**  For every descriptor table at the fork and every combination of child ends
+    that `setup_streams` can produce, after the child's `dup2`/`close` sequence descriptors 0, 1, 2
+    refer to exactly the requested objects: the parent's own stream when inherited, the pipe end /
+    file that was designated, and — for merge — the same object as the other output stream. -/
+theorem c05_wiring (eI eO eE : End) (h : WFEnds eI eO eE) (t : Tbl) :
+    ((dupAll eI eO eE).foldl tstep t) 0 = want t 0 eI ∧
+    ((dupAll eI eO eE).foldl tstep t) 1 = want t 1 eO ∧
+    ((dupAll eI eO eE).foldl tstep t) 2 = want t 2 eE := by
+  obtain ⟨gI, gO, gE, sIO, sIE, sOE⟩ := h
+  unfold dupAll
+  simp only [List.foldl_append]
+  -- stage 0
+  have S0 : ∃ t1 : Tbl, (dupStep 0 eI [eO, eE]).foldl tstep t = t1 ∧ t1 0 = want t 0 eI ∧
+      (∀ x, x ≠ 0 → (∀ f, eI.fd? = some f → x ≠ f ∨ eO = .own f ∨ eE = .own f ∨ ∀ g, eI ≠ .own g) → t1 x = t x) := by
+    cases hI : eI.fd? with
+    | none =>
+      have : eI = .none := by cases eI <;> simp [End.fd?] at hI ⊢
+      subst this
+      exact ⟨t, dupStep_none 0 _ t, by simp [want, End.fd?], fun _ _ _ => rfl⟩
+    | some f =>
+      have hf := gI f hI
+      obtain ⟨a, b, c⟩ := dupStep_spec 0 f eI [eO, eE] t hI (by omega)
+      refine ⟨_, rfl, by simp [want, hI, a], ?_⟩
+      intro x hx hcond
+      rcases hcond f rfl with h | h | h | h
+      · exact b x hx h
+      · by_cases hxf : x = f
+        · subst hxf; exact c (Or.inl (by simp [h]))
+        · exact b x hx hxf
+      · by_cases hxf : x = f
+        · subst hxf; exact c (Or.inl (by simp [h]))
+        · exact b x hx hxf
+      · by_cases hxf : x = f
+        · subst hxf; exact c (Or.inr h)
+        · exact b x hx hxf
+  obtain ⟨t1, ht1, h10, h1x⟩ := S0
+  rw [ht1]
+  -- the sources of stages 1 and 2 are untouched by stage 0
+  have keep1 : ∀ f, eO.fd? = some f → t1 f = t f := by
+    intro f hf
+    have hf0 : f ≠ 0 := by rcases gO f hf with h | ⟨h, _⟩; omega; (rw [h] at hf; simp [End.fd?] at hf; omega)
+    apply h1x f hf0
+    intro g hg
+    by_cases hfg : f = g
+    · subst hfg
+      cases hIe : eI with
+      | own k =>
+        rw [hIe] at hg; simp only [End.fd?, Option.some.injEq] at hg; subst hg
+        exact Or.inr (Or.inl (sIO _ hIe hf))
+      | none => rw [hIe] at hg; simp [End.fd?] at hg
+      | shared k => exact Or.inr (Or.inr (Or.inr (fun g => by simp)))
+      | std k => exact Or.inr (Or.inr (Or.inr (fun g => by simp)))
+    · exact Or.inl hfg
+  have keep2 : ∀ f, eE.fd? = some f → t1 f = t f := by
+    intro f hf
+    have hf0 : f ≠ 0 := by rcases gE f hf with h | ⟨h, _⟩; omega; (rw [h] at hf; simp [End.fd?] at hf; omega)
+    apply h1x f hf0
+    intro g hg
+    by_cases hfg : f = g
+    · subst hfg
+      cases hIe : eI with
+      | own k =>
+        rw [hIe] at hg; simp only [End.fd?, Option.some.injEq] at hg; subst hg
+        exact Or.inr (Or.inr (Or.inl (sIE _ hIe hf)))
+      | none => rw [hIe] at hg; simp [End.fd?] at hg
+      | shared k => exact Or.inr (Or.inr (Or.inr (fun g => by simp)))
+      | std k => exact Or.inr (Or.inr (Or.inr (fun g => by simp)))
+    · exact Or.inl hfg
+  have keep1' : t1 1 = t 1 ∨ eI.fd? = some 1 := by
+    by_cases h : eI.fd? = some 1
+    · exact Or.inr h
+    · left; apply h1x 1 (by omega); intro g hg; left; intro h1; subst h1; exact h hg
+  have keep2' : t1 2 = t 2 := by
+    apply h1x 2 (by omega); intro g hg; left; intro h2; subst h2; have := gI _ hg; omega
+  have keep1'' : t1 1 = t 1 := by
+    rcases keep1' with h | h
+    · exact h
+    · have := gI _ h; omega
+  -- stage 1
+  have S1 : ∃ t2 : Tbl, (dupStep 1 eO [eE]).foldl tstep t1 = t2 ∧ t2 1 = want t 1 eO ∧ t2 0 = t1 0 ∧
+      (∀ f, eE.fd? = some f → t2 f = t f) ∧ (eE.fd? = none → t2 2 = t 2) := by
+    cases hO : eO.fd? with
+    | none =>
+      have : eO = .none := by cases eO <;> simp [End.fd?] at hO ⊢
+      subst this
+      refine ⟨t1, dupStep_none 1 _ t1, by simp [want, End.fd?, keep1''], rfl, keep2, fun _ => keep2'⟩
+    | some f =>
+      have hf1 : f ≠ 1 := by rcases gO f hO with h | ⟨h, _⟩; omega; (rw [h] at hO; simp [End.fd?] at hO; omega)
+      have hf0 : f ≠ 0 := by rcases gO f hO with h | ⟨h, _⟩; omega; (rw [h] at hO; simp [End.fd?] at hO; omega)
+      obtain ⟨a, b, c⟩ := dupStep_spec 1 f eO [eE] t1 hO hf1
+      refine ⟨_, rfl, by simp [want, hO, a, keep1 f hO], b 0 (by omega) (Ne.symm hf0), ?_, ?_⟩
+      · intro g hg
+        have hg1 : g ≠ 1 := by
+          rcases gE g hg with h | ⟨h, h'⟩
+          · omega
+          · rw [h'] at hO; simp [End.fd?] at hO
+        by_cases hgf : g = f
+        · subst hgf
+          rw [← keep2 g hg]
+          apply c
+          cases hOe : eO with
+          | own k =>
+            rw [hOe] at hO; simp only [End.fd?, Option.some.injEq] at hO; subst hO
+            left; simp [sOE _ hOe hg]
+          | none => rw [hOe] at hO; simp [End.fd?] at hO
+          | shared k => right; intro g; simp
+          | std k => right; intro g; simp
+        · rw [b g hg1 hgf]; exact keep2 g hg
+      · intro hEn
+        rcases gO f hO with h | ⟨h, _⟩
+        · rw [b 2 (by omega) (by omega)]; exact keep2'
+        · rw [h] at hO; simp only [End.fd?, Option.some.injEq] at hO; subst hO
+          -- merge onto the inherited stderr: descriptor 2 is only read
+          rw [← keep2']; apply c; right; intro g; rw [h]; simp
+  obtain ⟨t2, ht2, h21, h20, h2E, h2n⟩ := S1
+  rw [ht2]
+  -- stage 2
+  cases hE : eE.fd? with
+  | none =>
+    have : eE = .none := by cases eE <;> simp [End.fd?] at hE ⊢
+    subst this
+    rw [dupStep_none]
+    exact ⟨by rw [h20, h10], h21, by simp [want, End.fd?, h2n rfl]⟩
+  | some f =>
+    have hf2 : f ≠ 2 := by rcases gE f hE with h | ⟨h, _⟩; omega; (rw [h] at hE; simp [End.fd?] at hE; omega)
+    obtain ⟨a, b, c⟩ := dupStep_spec 2 f eE [] t2 hE hf2
+    refine ⟨?_, ?_, by simp [want, hE, a, h2E f hE]⟩
+    · have hf0 : f ≠ 0 := by rcases gE f hE with h | ⟨h, _⟩; omega; (rw [h] at hE; simp [End.fd?] at hE; omega)
+      rw [b 0 (by omega) (Ne.symm hf0), h20, h10]
+    · by_cases hf1 : f = 1
+      · -- merge onto the inherited stdout: descriptor 1 is only read
+        subst hf1
+        rcases gE 1 hE with h | ⟨h, h'⟩
+        · omega
+        · rw [c (Or.inr (fun g => by rw [h]; simp)), h21]
+      · rw [b 1 (by omega) (Ne.symm hf1), h21]
+
+/-- the three child ends `setup_streams` computes are well-formed, provided the underlying objects
+    (pipe ends answered by the OS, files handed in) are distinct descriptors `≥ 3` and the
+    combination is valid (`Merge` not for stdin, not for both outputs) -/
+theorem c05_ends_wf (c : Cfg) (p : Pipes)
+    (hv : c.sin ≠ .merge ∧ ¬ (c.sout = .merge ∧ c.serr = .merge))
+    (hge : ∀ f, (end0 c.sin p.pin true).fd? = some f ∨ (end0 c.sout p.pout false).fd? = some f ∨
+      (end0 c.serr p.perr false).fd? = some f → 3 ≤ f)
+    (hIO : ∀ f, (end0 c.sin p.pin true).fd? = some f → (end0 c.sout p.pout false).fd? ≠ some f)
+    (hIE : ∀ f, (end0 c.sin p.pin true).fd? = some f → (end0 c.serr p.perr false).fd? ≠ some f)
+    (hOE : ∀ f, (end0 c.sout p.pout false).fd? = some f → (end0 c.serr p.perr false).fd? ≠ some f) :
+    WFEnds (endIn c p) (endOut c p) (endErr c p) := by
+  have nostd : ∀ (r : Redir) (q : Option (Nat × Nat)) (b : Bool) (k : Nat), end0 r q b ≠ .std k := by
+    intro r q b k; unfold end0; (repeat' split) <;> simp
+  have fdnone : ∀ e : End, e.fd? = none → e = .none := by intro e h; cases e <;> simp [End.fd?] at h ⊢
+  by_cases hom : c.sout = .merge
+  · -- stdout merged onto stderr
+    have hem : c.serr ≠ .merge := fun h => hv.2 ⟨hom, h⟩
+    have hO0 : end0 c.sout p.pout false = .none := by simp [hom, end0]
+    have hE : endErr c p = end0 c.serr p.perr false := by
+      unfold endErr; cases hs : c.serr <;> simp_all
+    rw [hE]; unfold endIn
+    cases hee : end0 c.serr p.perr false with
+    | none =>
+      have hO : endOut c p = .std 2 := by simp [endOut, hom, hee]
+      rw [hO]
+      constructor
+      · intro f hf; exact hge f (Or.inl hf)
+      · intro f hf; right; exact ⟨rfl, rfl⟩
+      · intro f hf; simp [End.fd?] at hf
+      · intro f hI hf; simp only [End.fd?, Option.some.injEq] at hf
+        have := hge f (Or.inl (by rw [hI]; simp [End.fd?])); omega
+      · intro f _ hf; simp [End.fd?] at hf
+      · intro f hf; simp at hf
+    | own g =>
+      have hO : endOut c p = .own g := by simp [endOut, hom, hee]
+      rw [hO]
+      constructor
+      · intro f hf; exact hge f (Or.inl hf)
+      · intro f hf; left; exact hge f (Or.inr (Or.inr (by rw [hee]; exact hf)))
+      · intro f hf; left; exact hge f (Or.inr (Or.inr (by rw [hee]; exact hf)))
+      · intro f hI hf; exact absurd (by rw [hee]; exact hf) (hIE f (by rw [hI]; simp [End.fd?]))
+      · intro f hI hf; exact absurd (by rw [hee]; exact hf) (hIE f (by rw [hI]; simp [End.fd?]))
+      · intro f hf1 hf2; simp only [End.own.injEq] at hf1; subst hf1; rfl
+    | shared g =>
+      have hO : endOut c p = .shared g := by simp [endOut, hom, hee]
+      rw [hO]
+      constructor
+      · intro f hf; exact hge f (Or.inl hf)
+      · intro f hf; left; exact hge f (Or.inr (Or.inr (by rw [hee]; exact hf)))
+      · intro f hf; left; exact hge f (Or.inr (Or.inr (by rw [hee]; exact hf)))
+      · intro f hI hf; exact absurd (by rw [hee]; exact hf) (hIE f (by rw [hI]; simp [End.fd?]))
+      · intro f hI hf; exact absurd (by rw [hee]; exact hf) (hIE f (by rw [hI]; simp [End.fd?]))
+      · intro f hf1; simp at hf1
+    | std k => exact absurd hee (nostd _ _ _ k)
+  · by_cases hem : c.serr = .merge
+    · -- stderr merged onto stdout
+      have hE0 : end0 c.serr p.perr false = .none := by simp [hem, end0]
+      have hO : endOut c p = end0 c.sout p.pout false := by
+        unfold endOut; cases hs : c.sout <;> simp_all
+      rw [hO]; unfold endIn
+      cases hoo : end0 c.sout p.pout false with
+      | none =>
+        have hE : endErr c p = .std 1 := by simp [endErr, hem, hoo]
+        rw [hE]
+        constructor
+        · intro f hf; exact hge f (Or.inl hf)
+        · intro f hf; simp [End.fd?] at hf
+        · intro f hf; right; exact ⟨rfl, rfl⟩
+        · intro f _ hf; simp [End.fd?] at hf
+        · intro f hI hf; simp only [End.fd?, Option.some.injEq] at hf
+          have := hge f (Or.inl (by rw [hI]; simp [End.fd?])); omega
+        · intro f hf; simp at hf
+      | own g =>
+        have hE : endErr c p = .own g := by simp [endErr, hem, hoo]
+        rw [hE]
+        constructor
+        · intro f hf; exact hge f (Or.inl hf)
+        · intro f hf; left; exact hge f (Or.inr (Or.inl (by rw [hoo]; exact hf)))
+        · intro f hf; left; exact hge f (Or.inr (Or.inl (by rw [hoo]; exact hf)))
+        · intro f hI hf; exact absurd (by rw [hoo]; exact hf) (hIO f (by rw [hI]; simp [End.fd?]))
+        · intro f hI hf; exact absurd (by rw [hoo]; exact hf) (hIO f (by rw [hI]; simp [End.fd?]))
+        · intro f hf1 hf2; simp only [End.own.injEq] at hf1; subst hf1; rfl
+      | shared g =>
+        have hE : endErr c p = .shared g := by simp [endErr, hem, hoo]
+        rw [hE]
+        constructor
+        · intro f hf; exact hge f (Or.inl hf)
+        · intro f hf; left; exact hge f (Or.inr (Or.inl (by rw [hoo]; exact hf)))
+        · intro f hf; left; exact hge f (Or.inr (Or.inl (by rw [hoo]; exact hf)))
+        · intro f hI hf; exact absurd (by rw [hoo]; exact hf) (hIO f (by rw [hI]; simp [End.fd?]))
+        · intro f hI hf; exact absurd (by rw [hoo]; exact hf) (hIO f (by rw [hI]; simp [End.fd?]))
+        · intro f hf1; simp at hf1
+      | std k => exact absurd hoo (nostd _ _ _ k)
+    · -- no merge: the three ends are independent objects
+      have hO : endOut c p = end0 c.sout p.pout false := by
+        unfold endOut; cases hs : c.sout <;> simp_all
+      have hE : endErr c p = end0 c.serr p.perr false := by
+        unfold endErr; cases hs : c.serr <;> simp_all
+      rw [hE, hO]; unfold endIn
+      constructor
+      · intro f hf; exact hge f (Or.inl hf)
+      · intro f hf; left; exact hge f (Or.inr (Or.inl hf))
+      · intro f hf; left; exact hge f (Or.inr (Or.inr hf))
+      · intro f hI hf; exact absurd hf (hIO f (by rw [hI]; simp [End.fd?]))
+      · intro f hI hf; exact absurd hf (hIE f (by rw [hI]; simp [End.fd?]))
+      · intro f hO' hf; exact absurd hf (hOE f (by rw [hO']; simp [End.fd?]))
+
+/-- **C05 (invalid combinations are refused, without starting a process).**  `Merge` for stdin, or
+    for both outputs: no `fork` call is ever issued, the result is not `Ok`, and what had been
+    opened is closed again. -/
+theorem c05_invalid_refused (c : Cfg) (rs : List SResp) (ha : c.argvEmpty = false)
+    (hinv : c.sin = .merge ∨ (c.sout = .merge ∧ c.serr = .merge)) :
+    hasFork (parentRun c rs).calls = false ∧ (acquireAll (stagesOf c) (s0 c) rs).fail ≠ none ∧
+    closedBy (parentRun c rs).calls = (acquireAll (stagesOf c) (s0 c) rs).s.owned := by
+  obtain ⟨p1, -, -, -, -, -, -, -, -, -, -, hbad, -⟩ := prefork_facts c rs
+  obtain ⟨hfail, hnf⟩ := hbad (Or.inr hinv)
+  cases hf : (acquireAll (stagesOf c) (s0 c) rs).fail with
+  | none => exact absurd hf hfail
+  | some r =>
+    obtain ⟨hc, -⟩ := parentRun_fail c rs ha r hf
+    refine ⟨by rw [hc, hasFork_append, hnf]; simp, by simp, by rw [hc, closedBy_append, p1, closedBy_closeAll]; rfl⟩
+
+/-- **C05 (the parent's own standard streams are never touched).**  Up to the fork, every
+    descriptor the parent closes or marks is one the attempt owns, and those are exactly
+    descriptors answered by `pipe()` or files handed in by the caller — with 0, 1, 2 open in the
+    parent the OS never answers them, so the parent's own streams are neither closed nor altered,
+    however many processes are started. -/
+theorem c05_parent_std_untouched (c : Cfg) (rs : List SResp) :
+    ∀ f ∈ touched (acquireAll (stagesOf c) (s0 c) rs).s.calls,
+      f ∈ cfgFiles c ∨ f ∈ (acquireAll (stagesOf c) (s0 c) rs).s.got := by
+  obtain ⟨-, -, ht, -, -, -, -, -, -, -, -, -, hof⟩ := prefork_facts c rs
+  intro f hf
+  exact hof f (ht f hf)
+
+/-! ### Non-vacuity (tests, labelled as tests) -/
+-- stdin = pipe (read end 5), stdout = pipe (write end 8), stderr = merge: 0 ← 5, 1 ← 8, 2 ← 8, and 5, 8 are closed
+example : ((dupAll (.own 5) (.own 8) (.own 8)).foldl tstep (fun n => some (100 + n))) 2 = some 108 := by
+  decide
+example : WFEnds (.own 5) (.own 8) (.own 8) := by
+  constructor <;> simp [End.fd?]
+-- stdout = merge onto the inherited stderr
+example : WFEnds .none (.std 2) .none := by
+  constructor <;> simp [End.fd?]
+
+end Spawn
